@@ -141,7 +141,14 @@ def mvccStep (d : Db) (line : String) : Db × String :=
     let cd : CompactDef := {
       thisLevel := thisL, nextLevel := nextL, top, bot,
       outSizes := news.map (·.2), outIds := news.map (·.1), dropPrefixes := hexList (argStr kv "drop") }
-    let dts := d.discardAtOrBelow
+    -- `lag=N`: compactions run inside DropPrefix read the discard watermark while the read mark of
+    -- DropPrefix's own View may still be in flight (the watermark is processed asynchronously);
+    -- the implementation's value N is accepted when it is not above the model's (a lower
+    -- watermark only keeps more versions). Explicit compactions carry no `lag` and must agree.
+    let dtsModel := d.discardAtOrBelow
+    let dts := match (kv.find? (·.1 == "lag")).bind (·.2.toNat?) with
+      | some n => if n ≤ dtsModel then n else dtsModel
+      | none => dtsModel
     let (out, ov) := compactOutput d.lsm cd dts d.opts.numKeep d.now
     match d.lsm.compact cd dts d.opts.numKeep d.now with
     | some l => ({ d with lsm := l }, s!"ok discard={dts} overlap={if ov then 1 else 0}")
